@@ -214,7 +214,7 @@ def shape(t):
         return tuple(h)
     if tag in ("const", "iota"):
         return t[2] if tag == "const" else t[1]
-    if tag in ("not", "and"):
+    if tag in ("not", "and", "ge0", "cumsum", "addc"):
         return shape(t[1])
     if tag in ("forstores", "scatter", "mscat", "pend"):
         return shape(t[2] if tag == "pend" else t[1])
@@ -244,8 +244,12 @@ def shape(t):
     if tag == "T":
         s = shape(t[1])
         return tuple(reversed(s)) if isinstance(s, tuple) else ShapeOf(t)
-    if tag == "outer_and":
+    if tag in ("outer_and", "outer_or"):
         return (length(t[1]), length(t[2]))
+    if tag == "col":
+        return (length(t[1]), P(1))
+    if tag == "row":
+        return (P(1), length(t[1]))
     if tag == "tab":
         sb = shape(t[2]) if is_term(t[2]) else ()
         return (iter_len(t[1]),) + (tuple(sb) if isinstance(sb, tuple) else ())
@@ -288,8 +292,10 @@ def dtype(t):
         return HINTS[t][1]
     if tag == "const":
         return "bool" if isinstance(t[1], bool) else ("int" if isinstance(t[1], int) else "float")
-    if tag in ("not", "and", "outer_and"):
+    if tag in ("not", "and", "outer_and", "outer_or"):
         return "bool"
+    if tag in ("col", "row"):
+        return dtype(t[1])
     if tag == "iota":
         return "int"
     if tag in ("sel", "gather", "elem", "rows", "ravel", "reshape", "index", "T", "rowsrep", "scatter", "forstores", "mscat", "pend"):
@@ -302,6 +308,12 @@ def dtype(t):
         return dtype(t[2])
     if tag == "hint":
         return t[2]
+    if tag == "ge0":
+        return "bool"
+    if tag in ("cumsum",):
+        return "int"
+    if tag == "addc":
+        return dtype(t[1])
     return None
 
 
@@ -318,10 +330,31 @@ def count(m):
         return size(m[1]) - count(m[1])
     if m[0] == "const" and isinstance(m[1], bool):
         return size(m) if m[1] else P(0)
+    if m[0] == "outer_and":
+        return count(m[1]) * count(m[2])
+    if m[0] == "tab" and is_term(m[2]):
+        return sum_over(m[1], count(m[2]), f"k{CUR_DEPTH[0]}")
     return atom(f"count[{show(m)}]")
 
 
 # --------------------------------------------------------------------------------------------- smart constructors
+
+CUR_DEPTH = [0]         # nesting depth of interpreted loops: the bound variable of a tabulation built at this point is k<depth>
+
+
+def bound_var():
+    return atom(f"k{CUR_DEPTH[0]}")
+
+
+def tab(it, blk):
+    return ("tab", it, blk)
+
+
+def lift_rows(a, C):
+    """a[C, :] for a two-dimensional index array C (one row of node numbers per element): the array whose k-th block is a[C[k], :]"""
+    k = bound_var()
+    return tab(("range", length(C)), rows(a, elem(C, k)))
+
 
 def const(v, shp):
     return ("const", v, tuple(shp))
@@ -334,10 +367,21 @@ def not_(x):
         return const(not x[1], x[2])
     if x[0] == "ite":
         return ite(x[1], not_(x[2]), not_(x[3]))
+    if x[0] == "tab" and is_term(x[2]):
+        return tab(x[1], not_(x[2]))
+    if x[0] in ("col", "row"):
+        return (x[0], not_(x[1]))
+    if x[0] == "outer_or":
+        return outer_and(not_(x[1]), not_(x[2]))
     return ("not", x)
 
 
 def and_(x, y):
+    if x[0] == "tab" and y[0] == "tab" and x[1] == y[1] and is_term(x[2]) and is_term(y[2]):
+        return tab(x[1], and_(x[2], y[2]))
+    for a_, b_ in ((x, y), (y, x)):
+        if a_[0] == "col" and b_[0] == "row":
+            return outer_and(a_[1], b_[1])
     parts = []
     for z in (x, y):
         if z[0] == "and":
@@ -391,6 +435,10 @@ def same_shape(a, b):
     return isinstance(sa, tuple) and isinstance(sb, tuple) and len(sa) == len(sb) and all(x == y for x, y in zip(sa, sb))
 
 
+def same_shape_tuple(a, b):
+    return isinstance(a, tuple) and isinstance(b, tuple) and len(a) == len(b) and all(x == y for x, y in zip(a, b))
+
+
 def reshape(x, shp):
     shp = tuple(shp)
     s = shape(x)
@@ -406,17 +454,29 @@ def reshape(x, shp):
         return reshape(x[1], shp)
     if x[0] == "not":
         return not_(reshape(x[1], shp))
+    if x[0] == "tab" and is_term(x[2]) and len(shp) >= 2 and shp[0] == iter_len(x[1]):
+        inner = P(1)
+        for d_ in shp[1:]:
+            inner = inner * d_
+        if inner == size(x[2]):
+            return tab(x[1], ravel(x[2]) if len(shp) == 2 else reshape(x[2], shp[1:]))
+    if x[0] == "mscat" and rank(x[1]) == 1 and all(same_shape_tuple(shape(unravel(m)), shp) for (m, _v) in x[2]):
+        # a masked scatter on the flat array, reshaped: the masked scatter on the shaped array
+        out = reshape(x[1], shp)
+        for (m, v) in x[2]:
+            out = mscat(out, unravel(m), v)
+        return out
     return ("reshape", x, shp)
 
 
 def _through_reshape(a, how):
-    """a = reshape(flat, F) indexed by `how` (a function applied to the id table of shape F)  ->  flat[ how(iota(F)) ]"""
-    if a[0] == "reshape" and rank(a[1]) == 1:
-        return gather(a[1], how(("iota", a[2])))
+    """(kept for callers; the normal form is now flat.reshape(F)[s], see gather)"""
     return None
 
 
 def rows(a, nodes):
+    if rank(nodes) == 2:
+        return lift_rows(a, nodes)
     if a[0] == "not":
         return not_(rows(a[1], nodes))
     r = _through_reshape(a, lambda i: rows(i, nodes))
@@ -456,6 +516,21 @@ def index(a, s):
 def sel(a, m):
     if m[0] == "const" and m[1] is True and same_shape(unravel(a), unravel(m)):
         return ravel(a)
+    if a[0] == "iota" and len(a[1]) == 1:
+        m2 = unravel(m)
+        if isinstance(shape(m2), tuple) and size(m2) == a[1][0]:
+            a, m = ("iota", tuple(shape(m2))), m2
+    if a[0] == "tab" and m[0] == "tab" and a[1] == m[1] and is_term(a[2]) and is_term(m[2]):
+        # row-major selection from a stack of blocks = concatenation of the per-block selections
+        v = sel(a[2], m[2])
+        var = f"k{CUR_DEPTH[0]}"
+        return ("cat", a[1], v, sum_over(a[1], count(m[2]), var))
+    if m[0] == "outer_and" and a[0] == "rowsrep" and length(m[2]) == length(a[1]):
+        # (i, j) -> v[j] at the positions f[i] & g[j], row-major: the selected v tiled count(f) times
+        return ravel(rowsrep(sel(a[1], m[2]), count(m[1])))
+    if m[0] == "outer_and" and a[0] == "T" and a[1][0] == "rowsrep" and length(m[1]) == length(a[1][1]):
+        # (i, j) -> v[i]
+        return ravel(transpose(rowsrep(sel(a[1][1], m[1]), count(m[2]))))
     a2, m2 = unravel(a), unravel(m)
     if same_shape(a2, m2) or (not isinstance(shape(a2), tuple) and not isinstance(shape(m2), tuple)):
         a, m = a2, m2
@@ -473,6 +548,13 @@ def gather(a, i):
         return elem(a, i)
     if i[0] == "sel":
         return sel(gather(a, i[1]), i[2])
+    if i[0] == "tab" and is_term(i[2]):
+        return tab(i[1], gather(a, i[2]))
+    if i[0] == "ravel" and rank(a) == 1:
+        return ravel(gather(a, i[1]))
+    if i[0] in ("index", "rows", "elem") and i[1][0] == "iota" and len(i[1][1]) > 1 and rank(a) == 1 and size(i[1]) == length(a):
+        # flat[ids[s]] with ids the id table of shape F: flat.reshape(F)[s]   (one normal form for both spellings)
+        return rebuild(i[0], [reshape(a, i[1][1])] + list(i[2:]))
     if a[0] == "iota" and len(a[1]) == 1:
         return i
     if i[0] == "iota" and rank(a) == 1 and size(i) == length(a):
@@ -530,6 +612,35 @@ def as_outer(blk):
     return None
 
 
+def ge0(x):
+    """x >= 0 elementwise, for an integer array"""
+    if x[0] == "mscat" and x[1][0] == "const" and isinstance(x[1][1], int) and not isinstance(x[1][1], bool) and x[1][1] < 0 \
+            and len(x[2]) == 1 and is_term(x[2][0][1]) and x[2][0][1][0] == "iota":
+        m = x[2][0][0]
+        return m if same_shape(m, x[1]) else reshape(m, shape(x[1]))
+    if x[0] in ("index", "rows", "elem") and is_term(x[1]):
+        return rebuild(x[0], [ge0(x[1])] + list(x[2:]))
+    if x[0] == "gather":
+        return gather(ge0(x[1]), x[2])
+    if x[0] == "reshape":
+        return reshape(ge0(x[1]), x[2])
+    if x[0] == "iota":
+        return const(True, x[1])
+    if x[0] == "const" and isinstance(x[1], int) and not isinstance(x[1], bool):
+        return const(x[1] >= 0, x[2])
+    return ("ge0", x)
+
+
+def where_(m, a, b):
+    """np.where(m, a, b) for the bookkeeping idioms that have a meaning in this algebra"""
+    # rank of every True entry among the True entries:  where(m, cumsum(m) - 1, c)  ==  full(c) with arange(count(m)) scattered at m
+    cb = pconst(b) if isinstance(b, Poly) else None
+    if is_term(m) and dtype(m) == "bool" and is_term(a) and a[0] == "addc" and a[2] == P(-1) and a[1][0] == "cumsum" and a[1][1] == m \
+            and cb is not None and rank(m) == 1:
+        return mscat(const(cb, shape(m)), m, ("iota", (count(m),)))
+    return unknown("where with these operands")
+
+
 # conditions
 def c_not(c):
     if c[0] == "cnot":
@@ -581,6 +692,10 @@ def rebuild(tag, a):
         return reshape(a[0], a[1])
     if tag == "outer_and":
         return outer_and(a[0], a[1])
+    if tag == "tab":
+        return tab(a[0], a[1])
+    if tag == "ge0":
+        return ge0(a[0])
     if tag == "ite":
         return ite(a[0], a[1], a[2])
     if tag == "T":
@@ -918,10 +1033,12 @@ class Interp:
                 env[n] = Cell(("carried", n))
         self.assign(st.target, val, env, scope, None)
         self.loops.append(lc)
+        CUR_DEPTH[0] = len(self.loops)
         try:
             paths = self.block(st.body, env, scope)
         finally:
             self.loops.pop()
+            CUR_DEPTH[0] = len(self.loops)
         paths = [p for p in paths]
         if any(p[1] in ("return", "raise") for p in paths):
             raise Unsupported("return/raise inside a bookkeeping loop")
@@ -1146,6 +1263,9 @@ class Interp:
                     return const(x[1] * pconst(as_poly(y)), x[2])
         if isinstance(op, ast.Add) and isinstance(a, Tup) and isinstance(b, Tup):
             return Tup(tuple(a) + tuple(b))
+        if isinstance(op, (ast.Add, ast.Sub)) and is_term(a) and dtype(a) == "int" and pb is not None and pconst(pb) is not None:
+            c = pb if isinstance(op, ast.Add) else P(0) - pb
+            return a if c == P(0) else ("addc", a, c)
         if isinstance(op, ast.BitAnd) and is_term(a) and is_term(b):
             return and_(a, b)
         if isinstance(op, ast.BitOr) and is_term(a) and is_term(b):
@@ -1197,6 +1317,13 @@ class Interp:
             if idx.is_all:
                 return a
             return index(a, ("sl", idx.lo, idx.hi, idx.step))
+        if isinstance(idx, Tup) and a[0] == "tab" and is_term(a[2]) and rank(a[2]) == 1 and len(idx) == 3 \
+                and isinstance(idx[0], SliceV) and idx[0].is_all:
+            i1, i2 = idx[1], idx[2]
+            if isinstance(i1, SliceV) and i1.is_all and i2 is None:
+                return tab(a[1], ("col", a[2]))
+            if i1 is None and isinstance(i2, SliceV) and i2.is_all:
+                return tab(a[1], ("row", a[2]))
         if isinstance(idx, Tup):
             items = list(idx)
             # trailing full slices are no-ops
@@ -1266,6 +1393,10 @@ class Interp:
             if is_term(a) and dtype(a) == "bool" and isinstance(b, bool) and isinstance(op, (ast.Eq, ast.NotEq)):
                 pos = (b is True) == isinstance(op, ast.Eq)
                 return a if pos else not_(a)
+            if is_term(a) and dtype(a) == "int" and isinstance(b, Poly) and b == P(0) and isinstance(op, ast.GtE):
+                return ge0(a)
+            if is_term(a) and dtype(a) == "int" and isinstance(b, Poly) and b == P(0) and isinstance(op, ast.Lt):
+                return not_(ge0(a))
             pa, pb = as_poly(a), as_poly(b)
             if pa is not None and pb is not None:
                 ca, cb = pconst(pa), pconst(pb)
@@ -1505,6 +1636,13 @@ class Interp:
             u, shp = arg(0, "array"), arg(1, "shape")
             if is_term(u) and rank(u) == 1 and isinstance(shp, Tup) and len(shp) == 2 and as_poly(shp[1]) == length(u):
                 return rowsrep(u, as_poly(shp[0]))
+            if is_term(u) and u[0] == "tab" and is_term(u[2]) and u[2][0] in ("row", "col") and isinstance(shp, Tup) and len(shp) == 3 \
+                    and as_poly(shp[0]) == iter_len(u[1]):
+                v = u[2][1]
+                if u[2][0] == "row" and as_poly(shp[2]) == length(v):
+                    return tab(u[1], rowsrep(v, as_poly(shp[1])))
+                if u[2][0] == "col" and as_poly(shp[1]) == length(v):
+                    return tab(u[1], transpose(rowsrep(v, as_poly(shp[2]))))
             return unknown("broadcast_to with this shape")
         if n in ("concatenate", "hstack") and args and is_term(args[0]) and args[0][0] == "listtab" and not kw:
             _, it, v = args[0]
@@ -1520,8 +1658,13 @@ class Interp:
             return transpose(args[0])
         if n in ("all", "any") and args and is_term(args[0]):
             return ("all_" if n == "all" else "any_", args[0])
-        if n == "where" and len(args) == 3 and all(is_term(a) for a in args):
-            return unknown("where")
+        if n == "where" and len(args) == 3:
+            return where_(args[0], args[1], args[2])
+        if n == "flatnonzero" and len(args) == 1 and is_term(args[0]) and dtype(args[0]) == "bool":
+            m = ravel(args[0])
+            return sel(("iota", (length(m),)), m)
+        if n == "cumsum" and args and is_term(args[0]) and dtype(args[0]) == "bool" and rank(args[0]) == 1 and not ({"axis"} & set(kw)):
+            return ("cumsum", args[0])
         if n == "coo_matrix":
             self.calls.append(("coo_matrix", args, kw))
             return ("param", f"coo_matrix#{len(self.calls)}")
